@@ -26,6 +26,8 @@ Lines (tab separated; integers decimal, Dec values raw 10^-18 integers; lists `,
   pkeep.daf     app pool owner x y bx by outcome status ax ay mint rx ry ps disabled wal=… esc=… mod=…   MsgDepositAndFarm
   pkeep.uaw     app pool owner pc farmed outcome status wx wy rx ry ps disabled wal=… esc=… mod=…        MsgUnfarmAndWithdraw
   pkeep.state   app post=…                                 nothing may have changed (after BeginBlocker etc.)
+  pkeep.bad     what outcome                               a malformed message (unknown app / pool, coin not of the pair,
+                                                           wrong pool coin denom, …): must be refused
 status: 1 not executed, 2 succeeded, 3 failed.
 
 MON (laws of C06 on REAL values; names are stable):
@@ -481,6 +483,7 @@ def handle (st : St) (seq : String) (f : List String) : St × List String :=
     match parseNat? app with
     | some app => handleState st seq app fs
     | none => (st, [s!"BAD\t{seq}\tstate"])
+  | ["pkeep.bad", what, o] => (st, diff seq s!"malformed message {what}" "err" o)
   | _ => (st, [s!"BAD\t{seq}\tunknown pkeep line"])
 
 end Comdex.Drv.PoolKeeper
